@@ -1360,10 +1360,10 @@ class Vector():
 		if isinstance(other, Vector):
 			if not self._dtype.nullable and not other.schema().nullable and self._dtype.kind != other.schema().kind:
 				raise SerifTypeError("Cannot concatenate two typesafe Vectors of different types")
-			values = self._underlying + other._underlying
+			values = (*self._underlying, *other._underlying)  # always a new tuple, also when one side is empty
 			return Vector(values, dtype=infer_dtype(values) if values else self._dtype)
 		if isinstance(other, Iterable) and not isinstance(other, (str, bytes, bytearray)):
-			values = self._underlying + tuple(other)
+			values = (*self._underlying, *other)  # always a new tuple, also when `other` is empty
 			return Vector(values, dtype=infer_dtype(values) if values else self._dtype)
 		values = self._underlying + (other,)
 		return Vector(values, dtype=infer_dtype(values))
@@ -1399,7 +1399,7 @@ class Vector():
 		"""
 		# Convert other to Vector and concatenate with self
 		if isinstance(other, Iterable) and not isinstance(other, (str, bytes, bytearray)):
-			return Vector(tuple(other) + self._underlying,
+			return Vector((*other, *self._underlying),  # always a new tuple, also when `other` is empty
 				None,  # other doesn't have a default element
 				None,
 				False)
